@@ -177,9 +177,10 @@ def parse_template(path: str):
                     # X16 region extraction: only the block statement that starts on the line containing the anchor
                     # (through its matching brace) is taken from the function; the template supplies a signature whose
                     # parameters are the region's free variables (region-sig) and the statements after it (region-tail)
-                    mr = re.match(r"//@ region `(.*?)`(?: \.\. `(.*)`)?\s*$", t)
+                    mr = re.match(r"//@ region `(.*?)`(?: \.\.(;?) `(.*)`)?\s*$", t)
                     blk["region"] = mr.group(1)
-                    blk["region_to"] = mr.group(2)   # optional: the block statement that ends the region starts at this anchor
+                    blk["region_to"] = mr.group(3)   # optional: the block statement that ends the region starts at this anchor
+                    blk["region_to_stmt"] = mr.group(2) == ";"   # `..;`: the region ends with the plain statement that contains the anchor
                 elif t.startswith("//@ prefix "):
                     blk["prefix"].append(lines[i].split("//@ prefix ", 1)[1])
                 elif t == "//@ external-body":
@@ -276,8 +277,22 @@ def build_item(repo: str, blk: dict, report: dict):
             k2 = body.find(blk["region_to"], k)
             if k2 < 0:
                 raise LostAnchor(f"{key}: region end anchor `{blk['region_to']}` not found")
-        ob = bm.find("{", k2)
-        cb = match_brace(bm, ob)
+        if blk.get("region_to_stmt"):
+            depth, cb = 0, None
+            for q in range(k2, len(bm)):
+                ch = bm[q]
+                if ch in "([{":
+                    depth += 1
+                elif ch in ")]}":
+                    depth -= 1
+                elif ch == ";" and depth == 0:
+                    cb = q
+                    break
+            if cb is None:
+                raise LostAnchor(f"{key}: no end of statement after region end anchor `{blk['region_to']}`")
+        else:
+            ob = bm.find("{", k2)
+            cb = match_brace(bm, ob)
         region = body[ls:cb + 1]
         log.append(("X16", f"region `{blk['region']}` ({region.count(chr(10)) + 1} lines) of {name} placed in a template-provided signature"))
         report["items"][-1]["rules"] = [f"{r}: {d}" for r, d in log]
